@@ -90,7 +90,7 @@ func runC19(r *Run) {
 				{docStores, "equivalentId", `$2["equivalentId"]`, ""},
 				{docStores, "created", fmt.Sprintf(timeFmt, "CreatedTime"), ""},
 				{docStores, "versionId", "$1.VersionID", `cmp($1.VersionID != "")`},
-				{docStores, "updated", fmt.Sprintf(timeFmt, "UpdatedTime"), ""},
+				{docStores, "updated", fmt.Sprintf(timeFmt, "UpdatedTime"), "cmp($1.UpdatedTime > 0)"},
 			}
 			okFmt, nFmt := true, 0
 			for _, c := range cells {
@@ -126,10 +126,15 @@ func runC19(r *Run) {
 					}
 					// no additional condition about the same source value
 					src := strings.TrimPrefix(c.want, "$1.")
+					if c.key == "updated" {
+						src = "UpdatedTime"
+					}
 					extra := []string{}
 					for _, fc := range at {
 						k := fc.Key()
-						if strings.Contains(k, "$"+f.Params[1].Name()+"."+src) && !core.HasFact(core.FactSet{k: fc}, c.guard) {
+						srcTerm := "$" + f.Params[1].Name() + "." + src
+						direct := (fc.A != nil && fc.A.String() == srcTerm) || (fc.B != nil && fc.B.String() == srcTerm)
+						if fc.Kind != "called" && fc.Kind != "stored" && direct && !core.HasFact(core.FactSet{k: fc}, c.guard) {
 							extra = append(extra, k)
 						}
 					}
